@@ -6,6 +6,7 @@ Associators / AssociatorNames, instance and class level).  All theorems quantify
 repositories, sources and filters.
 -/
 import Proofs.Lemmas.AssocStore
+import Proofs.Lemmas.AssocWrite3
 
 namespace C13
 open Pywbem.Proto Pywbem.Model.Assoc
@@ -649,6 +650,142 @@ theorem C13_add_preserves_store_ok {is : List Inst} {a : Inst} {n : Name}
     (hok : StoreOk is) (hnew : findInst is (rebase a n).path = none) : StoreOk (is ++ [rebase a n]) :=
   storeOk_append hok hnew
 
+/-! ## 11. the write path keeps the shadow copies in step: symmetry across namespaces after any history
+
+Vocabulary (definitions in `Proofs/Lemmas/AssocWrite*.lean`, model in `Pywbem/Model/AssocWrite.lean`):
+* `WInv r` — the shadow-copy discipline of a repository: namespaces unique up to case; stored paths carry
+  their store's namespace and no host; one instance per class name + keybindings in a store; an instance
+  with ends lives in a namespace one of its ends names; an instance without ends has no namesake in another
+  namespace; for every namespace an end names a namesake is stored there; namesakes have equal properties
+  and class (they are copies of one instance).
+* `CreateOk r ns a` — the request namespace is named by an end of `a` (or `a` has no end) and class name +
+  keybindings of `a` are new in the whole repository.
+* `ModifyOk sv ns p chg` — the merged instance still names the request namespace by an end (or has no end).
+* `runW sv ops` — the server after the write requests `ops` (a refused request changes nothing). -/
+
+/-- **assoc_symmetric**, strongest form: only the association instances that actually reference `y`
+    need a copy in `y`'s namespace store `T`. -/
+theorem C13_assoc_symmetric_linked {S T : NsStore} {x y : Path} {f : AFilter} {l : List Path}
+    (hshadow : ∀ a ∈ S.insts, (∃ q ∈ a.props, q.isRef = true ∧ ∃ y', q.value = some y' ∧ y'.eqv y = true) →
+      ∃ a' ∈ T.insts, a'.cls = a.cls ∧ a'.props = a.props)
+    (hycls : classExists T.classes y.cls = true)
+    (hacT : filterClassOk T.classes f.assocClass = true)
+    (hadm : ∀ c, classAdmits S.classes f.assocClass c = true → classAdmits T.classes f.assocClass c = true)
+    (h : assocInstNames S x f = .ok l) (hy : ∃ y' ∈ l, y'.eqv y = true) :
+    ∃ l', assocInstNames T y (swapRoles f) = .ok l' ∧ ∃ x' ∈ l', x'.eqv x = true := by
+  obtain ⟨y', hy'l, hy'y⟩ := hy
+  obtain ⟨hyx, a, ha, p, hp, q, hq, _, hpr, hqr, ⟨v, hpv, hvx⟩, hqv, hA, _, hRo, hRr⟩ :=
+    (C13_associator_characterisation h y').mp hy'l
+  obtain ⟨a', ha', hcls, hprops⟩ := hshadow a ha ⟨q, hq, hqr, y', hqv, hy'y⟩
+  have hok := assocInstNames_eq_ok (S := T) (x := y) (f := swapRoles f) hacT (by simp [swapRoles, filterClassOk]) hycls
+  refine ⟨_, hok, v, ?_, hvx⟩
+  rw [C13_associator_characterisation hok]
+  have hvy : v.eqv y = false := by
+    have h1 : v.eqv y' = false := eqv_false_of hvx hyx
+    rw [← eqv_congr_right hy'y]; exact h1
+  refine ⟨hvy, a', ha', q, hprops ▸ hq, p, hprops ▸ hp, ?_, hqr, hpr, ⟨y', hqv, hy'y⟩, hpv, ?_, ?_, hRr, hRo⟩
+  · intro hqp
+    subst hqp
+    rw [hpv] at hqv
+    cases hqv
+    simp [hvx] at hyx
+  · simp only [swapRoles]; rw [hcls]; exact hadm _ hA
+  · simp [swapRoles, classAdmits, truthy]
+
+/-- **symmetry across namespaces from the discipline**: in a repository that satisfies `WInv`, if `y`
+    (a stored end naming namespace `n2`) is an associator of `x` in namespace `ns1`, then `x` is an
+    associator of `y` in `n2` with the roles swapped — provided `y`'s class and the AssocClass are known
+    in `n2` and `n2` admits at least the association classes `ns1` admits (same schema). -/
+theorem C13_symmetric_across_namespaces {sv : Server} (hinv : WInv sv.repo)
+    {ns1 n2 : Name} {S T : NsStore} (hS : findNs sv.repo ns1 = some S) (hT : findNs sv.repo n2 = some T)
+    {x y : Path} {f : AFilter} {l : List Path}
+    (h : assocInstNames S x f = .ok l) (hy : y ∈ l) (hyns : y.ns = some n2)
+    (hycls : classExists T.classes y.cls = true)
+    (hacT : filterClassOk T.classes f.assocClass = true)
+    (hadm : ∀ c, classAdmits S.classes f.assocClass c = true → classAdmits T.classes f.assocClass c = true) :
+    ∃ l', assocInstNames T y (swapRoles f) = .ok l' ∧ ∃ x' ∈ l', x'.eqv x = true := by
+  obtain ⟨hSr, _⟩ := findNs_mem hS
+  obtain ⟨hTr, hTn⟩ := findNs_mem hT
+  apply C13_assoc_symmetric_linked (S := S) (T := T) ?_ hycls hacT hadm h ⟨y, hy, eqv_refl y⟩
+  intro a ha ⟨q, hq, hqr, y', hqv, hy'y⟩
+  -- the end `y'` names (up to case) the namespace `n2`
+  have hy'ns : ∃ n', y'.ns = some n' ∧ ieq n' n2 = true := by
+    have := (eqv_iff.mp hy'y).2.1
+    rw [hyns] at this
+    cases hn : y'.ns with
+    | none => simp [hn, eqOptName] at this
+    | some n' => exact ⟨n', rfl, by simpa [hn, eqOptName] using this⟩
+  obtain ⟨n', hn', hn'2⟩ := hy'ns
+  have hmem : n' ∈ endNss a := mem_endNss.mpr ⟨q, hq, hqr, y', hqv, hn'⟩
+  obtain ⟨T', hT', hT'n, a', ha', hpk⟩ := hinv.shadow S hSr a ha n' hmem
+  have hTT : T' = T := hinv.uniq T' hT' T hTr (ieq_trans hT'n (ieq_trans hn'2 (ieq_symm hTn)))
+  subst hTT
+  obtain ⟨hprops, hcls⟩ := hinv.coh T' hT' S hSr a' ha' a ha hpk
+  exact ⟨a', ha', hcls, hprops⟩
+
+/-- **the write path keeps the discipline**, one request: CreateInstance, ModifyInstance and
+    DeleteInstance of association instances preserve `WInv` (for Create and Modify under the request
+    conditions `CreateOk` / `ModifyOk`; DeleteInstance unconditionally).
+    Full statement without the request conditions: false — see `C13_write_discipline_fails_without_home`. -/
+theorem C13_write_step_keeps_discipline_partial {sv sv' : Server} (hinv : WInv sv.repo) :
+    (∀ ns a, CreateOk sv.repo ns a → createAssoc sv ns a = .ok sv' → WInv sv'.repo) ∧
+    (∀ ns p chg, ModifyOk sv ns p chg → modifyAssoc sv ns p chg = .ok sv' → WInv sv'.repo) ∧
+    (∀ ns p, deleteAssoc sv ns p = .ok sv' → WInv sv'.repo) :=
+  ⟨fun _ _ hreq h => create_preserves hinv hreq h,
+   fun _ _ _ hreq h => modify_preserves hinv hreq h,
+   fun _ _ h => delete_preserves hinv h⟩
+
+/-- the request conditions along a history (each evaluated in the state the request meets) -/
+def HistOk : Server → List WOp → Prop
+  | _, [] => True
+  | sv, op :: ops =>
+    (match op with
+     | .create ns a => CreateOk sv.repo ns a
+     | .modify ns p chg => ModifyOk sv ns p chg
+     | .delete _ _ => True) ∧ HistOk (stepW sv op) ops
+
+/-- **invariant over histories**: after ANY history of CreateInstance / ModifyInstance / DeleteInstance
+    requests for association instances (accepted or refused, in any order, through any namespace) whose
+    Create/Modify requests meet the request conditions, the repository satisfies the discipline. -/
+theorem C13_write_history_keeps_discipline_partial : ∀ (ops : List WOp) (sv : Server),
+    WInv sv.repo → HistOk sv ops → WInv (runW sv ops).repo
+  | [], _, hinv, _ => hinv
+  | op :: ops, sv, hinv, hok => by
+    obtain ⟨hreq, hrest⟩ := hok
+    have hstep : WInv (stepW sv op).repo := by
+      unfold stepW
+      cases hres : applyW sv op with
+      | error e => exact hinv
+      | ok sv' =>
+        cases op with
+        | create ns a => exact create_preserves hinv hreq hres
+        | modify ns p chg => exact modify_preserves hinv hreq hres
+        | delete ns p => exact delete_preserves hinv hres
+    exact C13_write_history_keeps_discipline_partial ops (stepW sv op) hstep hrest
+
+/-- **after any such history traversal is symmetric across namespaces** (composition of the two
+    theorems above). -/
+theorem C13_history_symmetric_across_namespaces_partial {sv : Server} {ops : List WOp}
+    (hinv : WInv sv.repo) (hok : HistOk sv ops)
+    {ns1 n2 : Name} {S T : NsStore} (hS : findNs (runW sv ops).repo ns1 = some S)
+    (hT : findNs (runW sv ops).repo n2 = some T)
+    {x y : Path} {f : AFilter} {l : List Path}
+    (h : assocInstNames S x f = .ok l) (hy : y ∈ l) (hyns : y.ns = some n2)
+    (hycls : classExists T.classes y.cls = true)
+    (hacT : filterClassOk T.classes f.assocClass = true)
+    (hadm : ∀ c, classAdmits S.classes f.assocClass c = true → classAdmits T.classes f.assocClass c = true) :
+    ∃ l', assocInstNames T y (swapRoles f) = .ok l' ∧ ∃ x' ∈ l', x'.eqv x = true :=
+  C13_symmetric_across_namespaces (C13_write_history_keeps_discipline_partial ops sv hinv hok)
+    hS hT h hy hyns hycls hacT hadm
+
+/-- the creation loop of `createAssoc` (a fold over the namespace list) is one pass over the repository
+    that appends the copy to every store whose name is in the list — the representation used for
+    Modify and Delete (discharges "loop over namespaces = map over the NocaseDict of namespaces") -/
+theorem C13_create_loop_is_one_pass (sv : Server) (ns : Name) (a : Inst) :
+    (otherNamespaces a ns ++ [ns]).foldl (fun r n => addInst r n a) sv.repo =
+      mapInsts sv.repo (createF (otherNamespaces a ns ++ [ns]) a) :=
+  foldl_addInst_eq a _ _ (nodup_other_target a ns)
+
 /-! ## 10. non-vacuity and negation witnesses (closed instances, checked by evaluation) -/
 
 section Witness
@@ -778,6 +915,55 @@ example : associatorNamesC svGood nsA ['m'] {} = .ok [nN, nN, nN, nN] := by deci
 example : RefClassesExist classes := by unfold RefClassesExist; decide
 example : (associatorsC svGood nsA nN {}).toOption.map (·.map Prod.fst) = (associatorNamesC svGood nsA nN {}).toOption := by
   decide
+
+/-- three namespaces with the same schema; nodes 1,2 in `a`, 3 in `b`, 4 in `c` -/
+def nsC : Name := ['c']
+def pc (k : Nat) : Path := { cls := nN, ns := some nsC, host := none, key := k }
+def svW : Server := { host := hostH, repo := [
+  { name := nsA, classes := classes, insts := [node (pa 1), node (pa 2)] },
+  { name := nsB, classes := classes, insts := [node (pb 3)] },
+  { name := nsC, classes := classes, insts := [node (pc 4)] }] }
+
+/-- non-vacuity of the discipline and of the request conditions: a create across two namespaces, a
+    modify that re-points the far end into the request namespace (the copy in `b` disappears, fix
+    e0cdfd9), a delete -/
+def histW : List WOp :=
+  [.create nsA (link nL nsA 20 (pa 1) (pb 3) none),
+   .modify nsA { cls := nL, ns := none, host := none, key := 20 } [⟨['Q'], true, some (pa 2)⟩],
+   .create ['B'] (link nL nsB 21 (pb 3) (pa 2) none),
+   .delete nsA { cls := nL, ns := none, host := none, key := 21 }]
+
+example : WInv svW.repo := by constructor <;> decide
+example : WInv svGood.repo := by constructor <;> decide
+example : CreateOk svW.repo nsA (link nL nsA 20 (pa 1) (pb 3) none) := by constructor <;> decide
+example : ((runW svW (histW.take 1)).repo.map (fun S => S.insts.length)) = [3, 2, 1] := by decide
+example : ((runW svW (histW.take 2)).repo.map (fun S => S.insts.length)) = [3, 1, 1] := by decide
+example : ((runW svW (histW.take 3)).repo.map (fun S => S.insts.length)) = [4, 2, 1] := by decide
+example : ((runW svW histW).repo.map (fun S => S.insts.length)) = [3, 1, 1] := by decide
+example : associatorNamesI (runW svW (histW.take 3)) nsA (pa 2) {} =
+    .ok [fillHost hostH (pa 1), fillHost hostH (pb 3)] := by decide
+example : associatorNamesI (runW svW (histW.take 3)) nsB (pb 3) {} = .ok [fillHost hostH (pa 2)] := by decide
+
+/-- **negation witness** for the request condition of Create (`CreateOk`): CreateInstance through a
+    namespace that none of the ends names leaves a copy there which no later request through another copy
+    keeps in step (DeleteInstance through the copy in `a` leaves it behind: observed on the real code);
+    the discipline (`loc`) does not hold after it. -/
+theorem C13_write_discipline_fails_without_home :
+    ¬ (∀ (sv sv' : Server) (ns : Name) (a : Inst), WInv sv.repo → createAssoc sv ns a = .ok sv' → WInv sv'.repo) := by
+  intro h
+  cases hc : createAssoc svW nsC (link nL nsC 30 (pa 1) (pb 3) none) with
+  | error e =>
+    have : (createAssoc svW nsC (link nL nsC 30 (pa 1) (pb 3) none)).toOption.isSome = true := by decide
+    simp [hc, Except.toOption] at this
+  | ok sv' =>
+    have hw := h svW sv' nsC _ (by constructor <;> decide) hc
+    have hrepo : (createAssoc svW nsC (link nL nsC 30 (pa 1) (pb 3) none)).toOption.map (·.repo) =
+        some (addInsts svW.repo [nsA, nsB, nsC] (link nL nsC 30 (pa 1) (pb 3) none)) := by decide
+    simp only [hc, Except.toOption, Option.map_some, Option.some.injEq] at hrepo
+    have hloc := hw.loc
+    rw [hrepo] at hloc
+    revert hloc
+    decide
 
 end Witness
 
